@@ -122,7 +122,13 @@ pub fn roundtrip(_seed: u64) -> usize {
                 }
             }
         }
-        let payloads: Vec<Vec<u8>> = vec![vec![], vec![0], vec![0xff; 127], vec![7; 128], (0..=255u8).collect()];
+        // byte arrays around every VarInt prefix boundary and around the protocol's cookie limit (5120 bytes)
+        let mut payloads: Vec<Vec<u8>> = vec![vec![], vec![0], vec![0xff; 127], vec![7; 128], (0..=255u8).collect()];
+        if s.len() <= 1 {
+            for n in [5117usize, 5118, 5119, 5120, 16383, 16384, 32767] {
+                payloads.push((0..n).map(|i| (i % 251) as u8).collect());
+            }
+        }
         for pl in &payloads {
             check(&mut f, 0x0A, conf_out::StoreCookiePacket { key: s.clone(), payload: pl.clone() }, Enc::default().string(&s).bytes(pl).0);
             check(&mut f, 0x04, login_in::CookieResponsePacket { key: s.clone(), payload: Some(pl.clone()) }, Enc::default().string(&s).bool(true).bytes(pl).0);
